@@ -101,6 +101,8 @@ def run_tlc_piped(name, module, cfg, harness_args, workers=None, timeout=1800, s
     wd = os.path.join(OUT, name)
     shutil.rmtree(wd, ignore_errors=True)
     os.makedirs(wd, exist_ok=True)
+    if "\n" in cfg:  # configuration given as text: generated per run
+        cfg = write_cfg(name, module + ".cfg", cfg)
     tlclog = os.path.join(wd, "tlc.log")
     result = os.path.join(wd, "result.json")
     cmd = tlc_cmd(module + ".tla", cfg, os.path.join(wd, "meta"), workers, simulate=simulate, heap=heap,
@@ -179,6 +181,96 @@ def run_trace_validation(name, module, cfg, trace_path, timeout=1800, heap="4g",
     stats["text_tail"] = text[-3000:]
     shutil.rmtree(os.path.join(wd, "meta-trace"), ignore_errors=True)
     return stats
+
+
+def write_cfg(name, fname, text):
+    """Writes a generated TLC configuration under out/<name>/ and returns its absolute path."""
+    wd = os.path.join(OUT, name)
+    os.makedirs(wd, exist_ok=True)
+    path = os.path.join(wd, fname)
+    with open(path, "w") as f:
+        f.write(text)
+    return path
+
+
+def tla_set(xs):
+    return "{" + ", ".join('"%s"' % x for x in xs) + "}"
+
+
+def split_runs(trace_path):
+    """Splits an ndjson trace into runs (each starting with a reset event); returns list of (first_line_no, lines)."""
+    runs = []
+    cur = None
+    with open(trace_path) as f:
+        for i, line in enumerate(f, 1):
+            if not line.strip():
+                continue
+            if '"e":"reset"' in line[:200] or line.startswith('{"B"') and '"e":"reset"' in line:
+                cur = [i, []]
+                runs.append(cur)
+            if cur is None:
+                cur = [i, []]
+                runs.append(cur)
+            cur[1].append(line)
+    return runs
+
+
+def validate_trace(ev, prop, name, module, cfg_text, trace_path, src, max_reject=3, timeout=1800, heap="8g"):
+    """Validates a recorded trace against spec/<module>.tla.  Every rejected run is reported as a VIOLATION
+    (with a replay file holding the run and how to regenerate it), removed, and the rest is validated again."""
+    cfg = write_cfg(name, module + ".cfg", cfg_text)
+    total_events = 0
+    rejected = 0
+    path = trace_path
+    while True:
+        stats = run_trace_validation(name, module, cfg, path, timeout=timeout, heap=heap)
+        if stats["rejected"] or not stats["ok"]:
+            m = re.search(r'"REJECTED at event",\s*(\d+)', stats["text_tail"]) or re.search(r'"REJECTED at event",\s*(\d+)', open(os.path.join(OUT, name, "trace-tlc.log")).read())
+            if not m:
+                sys.stdout.write(stats["text_tail"])
+                raise ToolError("%s: trace validation failed without a rejection report" % name)
+            d = int(m.group(1))
+            runs = split_runs(path)
+            # run containing event d (events are numbered by non-empty line)
+            n = 0
+            hit = None
+            for idx, (first, lines) in enumerate(runs):
+                if n < d <= n + len(lines):
+                    hit = idx
+                    break
+                n += len(lines)
+            if hit is None:
+                raise ToolError("%s: rejected event %d not found in trace" % (name, d))
+            lines = runs[hit][1]
+            k = d - n  # 1-based index inside the run
+            rejected += 1
+            os.makedirs(os.path.join(OUT, "replays"), exist_ok=True)
+            rp = os.path.join(OUT, "replays", "%s-trace-%s-%d.json" % (prop, name, d))
+            evt = json.loads(lines[k - 1])
+            evt.pop("wire", None)
+            reset = json.loads(lines[0])
+            doc = {"property": prop, "what": "trace recorded from the code is not a behaviour of %s: event %d of the run is rejected" % (module, k),
+                   "replay": {"kind": "trace", "module": module, "cfg": cfg_text, "src": dict(src, run=reset.get("src")), "rejected_event": evt,
+                              "run": [json.loads(x) for x in lines[:k]] if sum(len(x) for x in lines[:k]) < 2000000 else "too large; regenerate from src"}}
+            with open(rp, "w") as f:
+                json.dump(doc, f)
+            print("VIOLATION property=%s replay=%s" % (prop, rp))
+            print("  what: %s rejects event %d of a recorded run: %s" % (module, k, json.dumps(evt)[:400]))
+            ev.violations += 1
+            if rejected >= max_reject:
+                break
+            # drop the rejected run and validate the rest
+            rest = os.path.join(OUT, name, "trace-rest-%d.ndjson" % rejected)
+            with open(rest, "w") as f:
+                for idx, (first, ls) in enumerate(runs):
+                    if idx != hit:
+                        f.writelines(ls)
+            path = rest
+            continue
+        total_events += max(stats.get("distinct", 1) - 1, 0)
+        ev.add_tlc("trace validation %s" % module, stats)
+        break
+    return total_events, rejected
 
 
 # ------------------------------------------------------------------ known findings
